@@ -168,3 +168,126 @@ fn c08_deg2rad() {
     vcover!(x < -100.0, "a negative angle");
     vassert!(r - want <= tol && want - r <= tol, "C08: degrees are not converted to radians by pi/180");
 }
+
+// ---------------------------------------------------------------------------------------------
+// Probe-valued data flow (cheap): the uninterpreted libm functions and `degrees_to_radians` return
+// CONCRETE, pairwise distinct, generic probe constants, so all float arithmetic inside `haversine` is
+// constant-folded; the four coordinates stay symbolic and are identified by the recorded ARGUMENTS
+// of `degrees_to_radians` (any call order). Decides for every (lat1, lon1, lat2, lon2) of the domain
+// WHICH quantity reaches which libm call. Weaker than the fully uninterpreted query above (a formula
+// agreeing with haversine on the probe constants would pass) but finishes, and runs on every change.
+const W: [f64; 4] = [0.3125, -1.171875, 0.84375, 2.40625];
+
+fn probe(separated: bool) {
+    let (lat1, lon1, lat2, lon2) = (any_f64(), any_f64(), any_f64(), any_f64());
+    assume(lat1 >= -90.0 && lat1 <= 90.0 && lat2 >= -90.0 && lat2 <= 90.0);
+    assume(lon1 >= -180.0 && lon1 <= 180.0 && lon2 >= -180.0 && lon2 <= 180.0);
+    // the coordinates are identified by value: pairwise distinct
+    assume(lat1 != lon1 && lat1 != lat2 && lat1 != lon2 && lon1 != lat2 && lon1 != lon2 && lat2 != lon2);
+    if separated {
+        // region where a wrong term changes the distance by far more than the native tolerance, so that a
+        // counterexample of the data-flow query also reproduces against the real libm
+        let (a1, a2) = (if lat1 < 0.0 { -lat1 } else { lat1 }, if lat2 < 0.0 { -lat2 } else { lat2 });
+        let dl = if lon1 < lon2 { lon2 - lon1 } else { lon1 - lon2 };
+        assume(a1 <= 70.0 && a2 <= 70.0 && (a1 - a2 >= 10.0 || a2 - a1 >= 10.0) && dl >= 10.0 && dl <= 170.0);
+    }
+    unsafe {
+        D2R_RET = W;
+        D2R_N = 0;
+        SIN_RET = [0.40625, -0.71875];
+        COS_RET = [0.59375, 0.28125];
+        POWI_RET = [0.171875, 0.53125];
+        SQRT_RET = [0.65625, 0.78125];
+        ATAN2_RET = 0.703125;
+        SIN_N = 0;
+        COS_N = 0;
+        POWI_N = 0;
+        SQRT_N = 0;
+        ATAN2_N = 0;
+    }
+    let d = haversine(lat1, lon1, lat2, lon2);
+    #[cfg(kani)]
+    unsafe {
+        vcover!(lat1 < 0.0 && lon2 < 0.0, "southern / western points");
+        vassert!(D2R_N == 4, "C08: haversine does not convert its four coordinates to radians");
+        vassert!(SIN_N == 2 && COS_N == 2 && POWI_N == 2 && SQRT_N == 2 && ATAN2_N == 1, "C08: haversine does not have the shape sin^2 + cos*cos*sin^2, 2*atan2(sqrt, sqrt)");
+        let mut found_lat = false;
+        let mut found_lon = false;
+        let mut i = 0;
+        while i < 4 {
+            let mut j = 0;
+            while j < 4 {
+                if i != j && D2R_ARGS[i] == lat1 && D2R_ARGS[j] == lat2 {
+                    found_lat = true;
+                    let cos_ok = (COS_ARGS[0] == W[i] && COS_ARGS[1] == W[j]) || (COS_ARGS[0] == W[j] && COS_ARGS[1] == W[i]);
+                    vassert!(cos_ok, "C08: the cosine factors are not cos(lat1) * cos(lat2)");
+                    let hlat = (W[j] - W[i]) / 2.0;
+                    let mut k = 0;
+                    while k < 4 {
+                        let mut l = 0;
+                        while l < 4 {
+                            if k != l && D2R_ARGS[k] == lon1 && D2R_ARGS[l] == lon2 {
+                                found_lon = true;
+                                let hlon = (W[l] - W[k]) / 2.0;
+                                let sin_ok = (SIN_ARGS[0] == hlat && SIN_ARGS[1] == hlon) || (SIN_ARGS[0] == -hlat && SIN_ARGS[1] == -hlon)
+                                    || (SIN_ARGS[0] == hlat && SIN_ARGS[1] == -hlon) || (SIN_ARGS[0] == -hlat && SIN_ARGS[1] == hlon);
+                                vassert!(sin_ok, "C08: the sines are not taken of half the latitude and half the longitude difference");
+                            }
+                            l += 1;
+                        }
+                        k += 1;
+                    }
+                }
+                j += 1;
+            }
+            i += 1;
+        }
+        vassert!(found_lat && found_lon, "C08: a coordinate does not reach degrees_to_radians");
+        vassert!(POWI_ARGS[0] == (SIN_RET[0], 2) && POWI_ARGS[1] == (SIN_RET[1], 2), "C08: the sines are not squared");
+        let a = POWI_RET[0] + COS_RET[0] * COS_RET[1] * POWI_RET[1];
+        vassert!(SQRT_ARGS[0] == a && SQRT_ARGS[1] == 1.0 - a, "C08: the square roots are not of a and 1-a");
+        vassert!(ATAN2_ARGS == (SQRT_RET[0], SQRT_RET[1]), "C08: atan2 is not taken of (sqrt(a), sqrt(1-a))");
+        let want = 6371.0 * (2.0 * ATAN2_RET);
+        vassert!(d - want <= 1e-9 && want - d <= 1e-9, "C08: distance is not R * 2 * atan2(..) with R = 6371 km");
+    }
+    #[cfg(not(kani))]
+    {
+        // native: compare with the spherical law of cosines (independent closed form), 50 m tolerance
+        let rad = std::f64::consts::PI / 180.0;
+        let c = (lat1 * rad).sin() * (lat2 * rad).sin() + (lat1 * rad).cos() * (lat2 * rad).cos() * ((lon2 - lon1) * rad).cos();
+        let want = 6371.0 * c.clamp(-1.0, 1.0).acos();
+        vassert!((d - want).abs() < 0.05 || want < 1.0, "C08: distance differs from the great-circle distance");
+    }
+}
+
+// @harness props=C08 tier=quick cap=600
+// haversine data flow with probe-valued libm, every pair of points (four pairwise distinct coordinates):
+// cos of the two latitudes, sin of half the lat / lon difference, squared, sqrt(a) / sqrt(1-a), R = 6371
+#[cfg_attr(kani, kani::proof)]
+#[cfg_attr(kani, kani::unwind(5))]
+#[cfg_attr(kani, kani::stub(f64::sin, stub_sin))]
+#[cfg_attr(kani, kani::stub(f64::cos, stub_cos))]
+#[cfg_attr(kani, kani::stub(f64::sqrt, stub_sqrt))]
+#[cfg_attr(kani, kani::stub(f64::powi, stub_powi))]
+#[cfg_attr(kani, kani::stub(f64::atan2, stub_atan2))]
+#[cfg_attr(kani, kani::stub(crate::decoder::plane::update_position::degrees_to_radians, stub_d2r))]
+#[cfg_attr(verif_replay, test)]
+fn c08_haversine_probe_all() {
+    probe(false);
+}
+
+// @harness props=C08 tier=quick cap=600
+// the same on well-separated points (|lat| <= 70 differing by >= 10 deg, 10..170 deg apart in longitude),
+// where a wrong term moves the distance by kilometres: counterexamples reproduce against the real libm
+#[cfg_attr(kani, kani::proof)]
+#[cfg_attr(kani, kani::unwind(5))]
+#[cfg_attr(kani, kani::stub(f64::sin, stub_sin))]
+#[cfg_attr(kani, kani::stub(f64::cos, stub_cos))]
+#[cfg_attr(kani, kani::stub(f64::sqrt, stub_sqrt))]
+#[cfg_attr(kani, kani::stub(f64::powi, stub_powi))]
+#[cfg_attr(kani, kani::stub(f64::atan2, stub_atan2))]
+#[cfg_attr(kani, kani::stub(crate::decoder::plane::update_position::degrees_to_radians, stub_d2r))]
+#[cfg_attr(verif_replay, test)]
+fn c08_haversine_probe_separated() {
+    probe(true);
+}
